@@ -31,8 +31,6 @@ def WCertAtM (s : SchemaD) (d : Doc) (M : MemoM) (q : Node × View) : Prop :=
 /-- **completeness of the memoised rule**: no crash and no error ⇒ the clause -/
 theorem memoRun_sound (s : SchemaD) (fx : Fixes) (d : Doc) (h7 : fx.v7 = true) (hpa : ParentsAgree s d) (hw : WfIds d)
     (hne : AL.get? (fragTable d) "" = none)
-    (hnb : ∀ e, Ent s d e → e.hasSub = true → NotBody d e.ssid)
-    (hAp : ∀ i sels, SelSet d i sels → ∀ g, SpreadD sels g → Apart d i g)
     (hE : (overlapMemoRun s fx d).1 = 0) (hC : (overlapMemoRun s fx d).2.crash = none) :
     Spec.overlappingFieldsCanBeMerged s d := by
   rw [overlapMemoRun_eq] at hE hC
@@ -47,13 +45,13 @@ theorem memoRun_sound (s : SchemaD) (fx : Fixes) (d : Doc) (h7 : fx.v7 = true) (
         have hs := selSet_of_typed hq
         have ha : Adm s d i v.parent := Adm.walk hq
         exact ⟨(withinM_sound s fx d h7 (memoFuel d) v.parent i sels c hc hs ha).1,
-          fun h => withinM_post s fx d h7 hpa hw (memoFuel d) hnb v.parent i sels c hc hs ha (hAp i sels hs) h⟩
+          fun h => withinM_post s fx d h7 hpa hw (memoFuel d) v.parent i sels c hc hs ha h⟩
       | _ => exact ⟨hc, fun h => GPM.skip rfl rfl (fun _ _ => trivial) h⟩)
     _ hci hC
   generalize hfin : sumLoop (typedNodes s d) (memoStep s fx (memoFuel d)) ({ frags := fragTable d } : OCtx) = fin
     at hE hC g
   obtain ⟨hkeys, hall⟩ := g.res hE (fun k => k ∈ keysM fin.2) (fun k hk => hk)
-  refine clause_of_certsM (M := fun k => k ∈ keysM fin.2) hpa hne (fun k hk => ?_) (fun i sels hs p ha => ?_)
+  refine clause_of_certsM (M := fun k => k ∈ keysM fin.2) hpa hne hw (fun k hk => ?_) (fun i sels hs p ha => ?_)
   · rcases hkeys k hk with h | h
     · simp [keysM] at h
     · exact h
